@@ -12,13 +12,16 @@ import (
 // scripted: the genesis contracts that would provide it are not deployed, so the adapter answers the three
 // validator questions with the simulation's fixed set and passes everything else through.
 type RealApp struct {
-	W       *world.World
-	Vals    []*types.Validator
-	ValsAt  func(h uint64) []*types.Validator // optional: the scripted answer of GetValidators(h) / CommitBlock at height h
-	Before  func(b *types.Block)              // optional: called just before / just after the application's CommitBlock
-	After   func(b *types.Block)
-	mu      sync.Mutex
-	Commits []CommitRec
+	W      *world.World
+	Vals   []*types.Validator
+	ValsAt func(h uint64) []*types.Validator // optional: the scripted answer of GetValidators(h) / CommitBlock at height h
+	Before func(b *types.Block)              // optional: called just before / just after the application's CommitBlock
+	After  func(b *types.Block)
+	// FastSync: hand blocks to the application the way the block-sync reactor does (CommitBlock(..., fastsync=true), then
+	// ApplyBlock - the same two calls in the same order as finalizeCommit, only the flag differs)
+	FastSync bool
+	mu       sync.Mutex
+	Commits  []CommitRec
 }
 
 func (a *RealApp) vals(h uint64) []*types.Validator {
@@ -48,7 +51,7 @@ func (a *RealApp) CommitBlock(b *types.Block, parts *types.PartSet, seen *types.
 	if a.Before != nil {
 		a.Before(b)
 	}
-	_, err := a.W.App.CommitBlock(b, parts, seen, fastsync)
+	_, err := a.W.App.CommitBlock(b, parts, seen, fastsync || a.FastSync)
 	if err != nil {
 		return nil, err
 	}
